@@ -631,6 +631,9 @@ def run(ctx) -> None:
     ctx.stats["C18 paths enumerated"] = npaths
     r4_construction(ctx, cls, file)
     r5_delegation(ctx, cls, file)
+    from .. import lints
+    lints.arm(ctx)
+
 
 
 # ---------------------------------------------------------------------------------------
